@@ -124,7 +124,11 @@ func c17Run(cs *c17Case, r *gen.Rand) {
 	b := core.NewBundle(core.Repo("repo"), core.BundleID(id), core.ContextStores(w.Stores()), core.ConsumableStore(dst), core.Logger(world.Nop))
 	mfs, err := dfuse.NewReadOnlyFS(b, dfuse.Streaming(cs.Streamed), dfuse.Logger(world.Nop))
 	if err != nil {
-		panic(fmt.Sprint("mount: ", err))
+		for i := range cs.Ops {
+			cs.Ops[i].Found, cs.Ops[i].Chunks, cs.Ops[i].Data = false, nil, nil
+			cs.Ops[i].Err = "the bundle cannot be mounted: " + err.Error()
+		}
+		return
 	}
 	f := &c17FS{ops: mfs.VerifFileSystem()}
 	ctx := context.Background()
@@ -303,9 +307,20 @@ func c17Tree(r *gen.Rand) []world.File {
 	if len(fs) == 0 {
 		fs = append(fs, world.File{Name: "only", Data: []byte("x")})
 	}
-	if r.Chance(1, 6) { // many siblings
+	if r.Chance(1, 5) { // many siblings, names of very different lengths
 		for i := 0; i < 40; i++ {
-			fs = append(fs, world.File{Name: fmt.Sprintf("many/s%03d", i), Data: []byte{byte(i)}})
+			name := fmt.Sprintf("s%03d", i)
+			if r.Bool() {
+				name += strings.Repeat("x", r.Intn(50))
+			}
+			fs = append(fs, world.File{Name: "many/" + name, Data: []byte{byte(i)}})
+		}
+	}
+	if r.Chance(1, 5) { // sibling directories whose names are prefixes of one another
+		for _, d := range []string{"runs/run1", "runs/run10", "runs/run1.bak", "runs/run"} {
+			if r.Chance(2, 3) {
+				fs = append(fs, world.File{Name: d + "/out", Data: []byte(d)})
+			}
 		}
 	}
 	return fs
@@ -373,7 +388,7 @@ func init() {
 					}
 					cs.Ops = append(cs.Ops, c17Op{Kind: "lookup", Dir: d, Name: name})
 				case 1:
-					cs.Ops = append(cs.Ops, c17Op{Kind: "readdir", Dir: dirs[r.Intn(len(dirs))], Buf: r.Range(40, 400)})
+					cs.Ops = append(cs.Ops, c17Op{Kind: "readdir", Dir: dirs[r.Intn(len(dirs))], Buf: []int{r.Range(40, 400), r.Range(100, 1024), 4096}[r.Intn(3)]})
 				default:
 					f := cs.Files[r.Intn(len(cs.Files))]
 					d, name := "", f.Name
